@@ -111,9 +111,10 @@ fn model_header_for<L: leptos_i18n::Locale>(header: &Option<String>, all: &[L]) 
     let mut last_q = 1000i64;
     let mut descending = true;
     for entry in header.split(',') {
+        // optional whitespace around the list elements is part of the header syntax (RFC 9110: `da, en-gb;q=0.8, en;q=0.7`)
         let (tag, q) = match entry.split_once(';') {
-            Some((t, q)) => (t, q.strip_prefix("q=").and_then(|q| q.parse::<f64>().ok()).map_or(1000, |q| (q * 1000.0) as i64)),
-            None => (entry, 1000),
+            Some((t, q)) => (t.trim(), q.trim().strip_prefix("q=").and_then(|q| q.parse::<f64>().ok()).map_or(1000, |q| (q * 1000.0) as i64)),
+            None => (entry.trim(), 1000),
         };
         if q > last_q {
             descending = false;
@@ -409,6 +410,11 @@ fn lang_headers() -> Vec<Option<String>> {
         Some("ja,de;q=0.8,fr;q=0.5"),
         // ascending q: ambiguous, both admissible
         Some("fr;q=0.5,de"),
+        // a blank after the commas (the form RFC 9110 and MDN show)
+        Some("ja, fr;q=0.8, de;q=0.5"),
+        Some("it-CH, fr;q=0.9, en;q=0.8, de;q=0.7, *;q=0.5"),
+        Some(" de"),
+        Some("ja , de"),
     ]
     .into_iter()
     .map(|h| h.map(|s| s.to_string()))
@@ -505,7 +511,7 @@ fn gen_case(t: &mut Tape) -> Case {
                 parts.push(format!("{tag};q=0.{q}"));
             }
         }
-        Some(parts.join(","))
+        Some(parts.join(if t.chance(1, 3) { ", " } else { "," }))
     };
     let opt_loc = |t: &mut Tape| -> Option<Locale> {
         match t.pick(4) {
